@@ -3,6 +3,8 @@
 
 usage: tools/mutant.py [PROP ...]        run all mutants/<PROP>/*.json (default: every property)
        tools/mutant.py --one FILE.json   run one
+       tools/mutant.py --equiv [PROP ..] run equivalents/<PROP>/*.json: behaviour-preserving variants ("equivalent": true) on which
+                                         the listed checks must stay silent (status `silent`; `false-alarm` otherwise)
 
 A mutant file: {"property": "C04", "desc": "...", "edits": [{"file": "src/..", "find": "...", "replace": "...", "nth": 1}],
                 "expect": ["rule-or-key-substring", ...]}
@@ -51,6 +53,14 @@ def run_one(path):
                 res['details'].append(r.stderr[-400:])
                 break
             viol = [l for l in out.splitlines() if 'VIOLATION' in l or l.startswith('  rule=')]
+            if m.get('equivalent'):
+                # behaviour-preserving variant: the check must stay silent
+                if r.returncode != 0 or viol:
+                    res['status'] = 'false-alarm'
+                    res['details'].append({'prop': prop, 'exit': r.returncode, 'violations': [l.strip() for l in viol][:6]})
+                else:
+                    res['status'] = 'silent' if res['status'] in ('caught', 'silent') else res['status']
+                continue
             missing = [x for x in m.get('expect', []) if x not in out]
             if r.returncode != 1 or missing:
                 res['status'] = 'missed'
@@ -67,6 +77,10 @@ def main():
     files = []
     if args and args[0] == '--one':
         files = args[1:]
+    elif args and args[0] == '--equiv':
+        props = args[1:] or sorted(os.listdir(os.path.join(VERIF, 'equivalents')))
+        for p in props:
+            files += sorted(glob.glob(os.path.join(VERIF, 'equivalents', p, '*.json')))
     else:
         props = args or sorted(os.listdir(os.path.join(VERIF, 'mutants')))
         for p in props:
@@ -77,10 +91,12 @@ def main():
     for r in results:
         print('%-14s %s %s' % (r['status'], r['mutant'], json.dumps(r.get('details', r.get('why', '')))[:300]))
     summ = {'mutants': len(results), 'caught': sum(r['status'] == 'caught' for r in results),
+            'silent': sum(r['status'] == 'silent' for r in results),
+            'false_alarms': [r['mutant'] for r in results if r['status'] == 'false-alarm'],
             'missed': [r['mutant'] for r in results if r['status'] == 'missed'],
             'skipped': [r['mutant'] for r in results if r['status'] in ('skipped', 'does-not-build')]}
     print(json.dumps(summ))
-    return 0 if not summ['missed'] else 1
+    return 0 if not summ['missed'] and not summ['false_alarms'] else 1
 
 
 if __name__ == '__main__':
